@@ -213,6 +213,23 @@ CHECKS["C04"] = (
     "DESIGN.md 3 (C04)",
 )
 
+CHECKS["C07"] = (
+    "Coq proof: unit-conversion algebra (Q, field), MathComp scaling lemmas for all dimensions, Jacobian constant over the reals, shift-invariance of "
+    "the rejection rule (lists, XQ), P0 unit fact about the generated kernel model; twin problems on the implementation, each twin certified against "
+    "the generated model and the exact closed form, Jacobian relation between twins certified by Coq-Interval",
+    "Proved: re-expressing any quantity in an equivalent unit leaves the value the kernel receives unchanged and unpack(pack) is the identity; under a "
+    "change of the kernel's velocity unit by c != 0, for every field and all n, k: B -> c^2 B, B^-1 -> c^-2 B^-1, chi^2 unchanged, det B -> c^(2n) det "
+    "B, A^-1 -> c^-2 A^-1 and a -> c a; over R ln N changes by exactly -n ln c; adding one constant to every ln-likelihood leaves accept_idx unchanged "
+    "for every decision oracle that depends on the value of ll_i - max only; the generated __init__ converts P0 to days. Per run: each base problem "
+    "and its four twins (data km/s<->m/s; all prior scales, sigma_K0, max_K in the other velocity unit and trend terms per yr<->d; P0 and the period "
+    "prior in yr/d/h; prior-sample columns in yr/deg/other velocity unit) are run on the implementation; every twin is compared with the generated "
+    "kernel model and the closed form as in C01; Coq certifies ll_twin - ll_base + n ln c = 0; with equal seeds the accepted library rows are "
+    "identical and the (mean, cov) handed to the generator are physically equal.",
+    "Trusted: as C01; astropy's conversion factors; the interval-based acceptance oracle used in runs is not itself proved invariant under rewriting "
+    "of the rational (the theorem is for value-dependent oracles); accepted-set equality is skipped when a decision is within 1e-7 of its threshold.",
+    "DESIGN.md 3 (C07)",
+)
+
 NOT_YET = {}
 
 
